@@ -371,3 +371,12 @@ Example C15_fuzzy_nonvacuous :
   merged_fuzzy [mut_ops ascii_is_lower ascii_lower true m; fst_ops ascii_is_lower ascii_lower (spec_stream lev) f] q q 1 3
     = Ok [mkfres w_abc 1 1; mkfres w_ab 1 2; mkfres w_ab 1 2].
 Proof. exact fuzzy_example. Qed.
+
+(* the premise of C15_fst_new_agrees is satisfiable, and fails exactly when two spellings share an id *)
+Example C15_fst_new_agrees_nonvacuous :
+  let ws := [(w_abc, 1); (w_ab, 2); (w_AB ++ [99%N], 3)] in
+  NoDup (ids_of ascii_is_lower ascii_lower [(w_abc, 1); (w_ab, 2)]) /\
+  ~ NoDup (ids_of ascii_is_lower ascii_lower ws) /\
+  fst_exact ascii_is_lower ascii_lower (fst_new ascii_is_lower ascii_lower [(w_abc, 1); (w_ab, 2)]) w_AB = false /\
+  fst_canon ascii_is_lower ascii_lower (fst_new ascii_is_lower ascii_lower [(w_abc, 1); (w_ab, 2)]) w_AB = Some w_ab.
+Proof. exact fst_new_agrees_example. Qed.
